@@ -43,6 +43,10 @@ def coerce(val, dt, guard=True, rt=None, record=True):
         if isinstance(val, SF):
             return val
         if is_sym(val):
+            if record and rt is not None and getattr(rt, "exact_ints", False) and z3.is_int(val):
+                # a 64-bit integer (timestamp) stored into a float array: exact only up to 2^53
+                lim = 2**53 if dt.itemsize == 8 else 2**24
+                rt.obligations.append(("float_detour", guard, z3.Or(val == MIN_INT, z3.And(val >= -lim, val <= lim)), rt.where()))
             return SF.of(val)
         return float(val)
     if k == "b":
